@@ -225,9 +225,13 @@ func (x *runner) one(e *env, w *ref.World, q Request, ex expectation) result {
 	if sig == "" {
 		return res
 	}
+	base := sig
+	if w.M.Flat {
+		sig += "/" + w.M.Signature()
+	}
 	again := 0
 	for i := 0; i < 5; i++ {
-		if s2, _ := judge(w, q, ex, e.call(q)); s2 == sig {
+		if s2, _ := judge(w, q, ex, e.call(q)); s2 == base {
 			again++
 		}
 	}
@@ -388,6 +392,17 @@ func Run(o *core.Options) int {
 	}
 	if stride <= len(reps) {
 		x.sweep("main", main, ref.DefaultUniverse(), 2, 1, 0)
+	}
+	// nested set operators over one object (ref.FlatFamily), up to 4 tuples (6 in thorough)
+	{
+		kf := 4
+		if o.Thorough() {
+			kf = 6
+		}
+		flat := e2.ValidModels(ref.FlatFamily())
+		r.Set("flat_family_models", len(flat))
+		r.Set("max_tuples_flat_sweep", kf)
+		x.sweep("flat", flat, ref.FlatUniverse(), kf, 1, 0)
 	}
 	if k3stride > 0 {
 		k3 := every(reps, k3stride)
